@@ -473,6 +473,10 @@ where
                         Ok(CoroutineState::Suspend(y, timestamp))
                     }
                     CoroutineState::Syscall(y, syscall, state) => {
+                        // requests made by a yield inside a system call belong to this
+                        // yield, never leave them to the next coroutine of this thread
+                        _ = Suspender::<Yield, Param>::is_cancel();
+                        _ = Suspender::<Yield, Param>::timestamp();
                         Ok(CoroutineState::Syscall(y, syscall, state))
                     }
                     _ => Err(Error::other(format!(
